@@ -1679,7 +1679,7 @@ func TestCheck(t *testing.T) {
 	logrus.SetOutput(io.Discard) // the parser logs bad lines through the global logger
 	r := mon.Start(t, "C03")
 	defer r.Finish()
-	r.Rule("three input families, all PRNG-determined: (1) lines for the lexer entry: structure-aware random bytes with NUL, single-point mutations of grammar derivations with NUL/odd bytes, and `_e{n,m}` headers whose lengths are enumerated (and sampled) around 0, the body lengths, 2^16, 2^31, 2^32, 2^63, 2^64, 20+ digits and the sums that wrap a 32-bit addition, crossed with bodies shorter/equal/longer than declared; (2) datagrams of 0..65535 bytes (line mixtures, random bytes, one very long component, tens of thousands of short or empty lines), alone or in batches, fed to a real DatagramParser.Run goroutine directly or through a real DatagramReceiver on a fake socket, each followed by a sentinel line; (3) POSTs to /v2/raw and /v2/event through the router of web.NewHttpServer: valid, truncated, bit-flipped and hand-crafted protobuf (absent sub-messages, lying lengths, groups), random bytes, packed raw / zlib / lz4 / corrupted zlib / corrupted lz4 / doubly packed, crossed with Content-Encoding absent, identity, deflate, lz4, unknown and 65..4000-byte junk; every 10th also over a real TCP server; a few 16-64 MiB decompression bombs. (4) end to end: the same router and a DatagramParser in front of the real TagHandler -> BackendHandler (2-4 workers, real aggregators) -> MetricFlusher on a mock clock -> capturing backend, fed groups of legal but unusual protobuf bodies (empty sets, timers without values but with a sample count and the reverse, NaN/Inf, empty names and tag-map keys, out-of-range event enums) and UDP lines on one small name/tag/host pool, with idle re-flushes; after each group a sentinel gauge must come out of one of the next flushes (bound 200) (tick through the mock clock, wait for the flush notification and every worker's backend call). (5) transfer modes and the real server: requests over TCP with a declared length, chunked (unknown length) or a lying Content-Length, and a quarter of the direct calls with ContentLength -1; the real statsd.Server (RunWithCustomSocket, standalone, HTTP server from configuration text) over random legal start-up configurations (readers 1-2, parsers 1-4, workers 1-3, queue 1/16/1000, max-concurrent-events 1..1024 incl. below the number of backends, 1-3 backends, namespace) fed groups of hostile datagrams with valid events and hostile requests in every transfer mode; after each group a UDP and an HTTP sentinel must reach every backend, at the end the parser.* gauges the server reports must add up to the lines sent and every valid event must have reached every backend; a stage that stalls is repeated on a fresh server before it is reported. Oracles: no panic, return within the watchdog (non-return reproduced once, then a violation), exactly one of metric/event/error per line, lines = metrics_received + events_received + bad_lines_seen growth with bad lines = lines the lexer rejects, sentinel processed after every batch / every 50 requests, a status for every request, decodable requests (by an independent decode with the compression and protobuf libraries) answered 2xx and dispatched once, undecodable ones answered >=400 and not dispatched. Non-trivial: an input that gets past the first lexer state or a datagram with rejected lines / events / >=1500 bytes, or a request reaching a decompression / unmarshal decision; distinct by (family, outcome or error class) resp. (datagram kind, mode, size class, what it produced) resp. (path, declared encoding, packing, reference verdict) resp. (unusual feature of the body, workers, expiry) resp. (parsers, backends, event budget below/above backends, queue, namespace).")
+	r.Rule("three input families, all PRNG-determined: (1) lines for the lexer entry: structure-aware random bytes with NUL, single-point mutations of grammar derivations with NUL/odd bytes, and `_e{n,m}` headers whose lengths are enumerated (and sampled) around 0, the body lengths, 2^16, 2^31, 2^32, 2^63, 2^64, 20+ digits and the sums that wrap a 32-bit addition, crossed with bodies shorter/equal/longer than declared; (2) datagrams of 0..65535 bytes (line mixtures, random bytes, one very long component, tens of thousands of short or empty lines), alone or in batches, fed to a real DatagramParser.Run goroutine directly or through a real DatagramReceiver on a fake socket, each followed by a sentinel line; (3) POSTs to /v2/raw and /v2/event through the router of web.NewHttpServer: valid, truncated, bit-flipped and hand-crafted protobuf (absent sub-messages, lying lengths, groups), random bytes, packed raw / zlib / lz4 / corrupted zlib / corrupted lz4 / doubly packed, crossed with Content-Encoding absent, identity, deflate, lz4, unknown and 65..4000-byte junk; every 10th also over a real TCP server; a few 16-64 MiB decompression bombs. (4) end to end: the same router and a DatagramParser in front of the real TagHandler -> BackendHandler (2-4 workers, real aggregators) -> MetricFlusher on a mock clock -> capturing backend, fed groups of legal but unusual protobuf bodies (empty sets, timers without values but with a sample count and the reverse, NaN/Inf, empty names and tag-map keys, out-of-range event enums) and UDP lines on one small name/tag/host pool, with idle re-flushes; after each group a sentinel gauge must come out of one of the next flushes (bound 200) (tick through the mock clock, wait for the flush notification and every worker's backend call). (5) transfer modes and the real server: requests over TCP with a declared length, chunked (unknown length) or a lying Content-Length, and a quarter of the direct calls with ContentLength -1; the real statsd.Server (RunWithCustomSocket, standalone, HTTP server from configuration text) over random legal start-up configurations (readers 1-2, parsers 1-4, workers 1-3, queue 1/16/1000, max-concurrent-events 1..1024 incl. below the number of backends, 1-3 backends, namespace) fed groups of hostile datagrams with valid events and hostile requests in every transfer mode; after each group a UDP and an HTTP sentinel must reach every backend, at the end the parser.* gauges the server reports must add up to the lines sent and every valid event must have reached every backend; a stage that stalls is repeated on a fresh server before it is reported. Half of the server configurations run the real CachedCloudProvider (scripted provider, 2 ms refresh / 4 ms TTL / 7 ms idle eviction, composed as cmd/gostatsd does) with 40 senders plus a rotating stream of up to 4000 datagrams from 64 senders. Held requests: two background scenarios per quick run in which the only backend holds a flush and an event for 11-13 s of real time while metric bodies and events are posted over TCP; each must get its 2xx when the pipeline lets go. Oracles: no panic, return within the watchdog (non-return reproduced once, then a violation), exactly one of metric/event/error per line, lines = metrics_received + events_received + bad_lines_seen growth with bad lines = lines the lexer rejects, sentinel processed after every batch / every 50 requests, a status for every request, decodable requests (by an independent decode with the compression and protobuf libraries) answered 2xx and dispatched once, undecodable ones answered >=400 and not dispatched. Non-trivial: an input that gets past the first lexer state or a datagram with rejected lines / events / >=1500 bytes, or a request reaching a decompression / unmarshal decision; distinct by (family, outcome or error class) resp. (datagram kind, mode, size class, what it produced) resp. (path, declared encoding, packing, reference verdict) resp. (unusual feature of the body, workers, expiry) resp. (parsers, backends, event budget below/above backends, queue, namespace).")
 	r.Assume("compress/zlib, pierrec/lz4 and google.golang.org/protobuf decide what a decodable body is; the status-class oracle for undecodable bodies follows the current tree (the statement only demands some status)")
 	r.Assume("the unbuffered hand-off between receiver, parser input channel and parser loop is what makes 'everything before the fence is processed' observable")
 
@@ -1687,6 +1687,7 @@ func TestCheck(t *testing.T) {
 		replay(t, r, p)
 		return
 	}
+	waitSlow := startSlow(r) // 11-13 s of real time each, in the background
 	t0 := time.Now()
 	phaseLexer(r, -1)
 	t1 := time.Now()
@@ -1695,6 +1696,7 @@ func TestCheck(t *testing.T) {
 	phaseHTTP(r, -1)
 	t3 := time.Now()
 	phaseServer(r, -1)
+	waitSlow()
 	t4 := time.Now()
 	phaseE2E(r, -1) // last: a crash further down the pipeline kills this process
 	r.Extra("phase_server_cpu_s", t4.Sub(t3).Seconds())
@@ -1731,6 +1733,8 @@ func replay(t *testing.T, r *mon.Run, p []byte) {
 			phaseE2E(r, cs.Index)
 		case "server":
 			phaseServer(r, cs.Index)
+		case "slow":
+			slowScenario(r, cs.Index)
 		case "http":
 			c, err := newHTTPChecker(r)
 			if err == nil && len(raw) == 1 {
